@@ -16,6 +16,8 @@ from __future__ import annotations
 import ast
 
 from ..lib import *
+from ..twin import check_pairs
+from ._twins import pairs_for, all_pairs
 from . import _tables as T
 
 EXPLANATION = (
@@ -136,6 +138,10 @@ def check(ctx):
             ctx.ob("ALG.scan-monoid", c, f"{qn}: (scan={wf}, merge={wop}, identity={wid}, block total={wpre})", ok, "" if ok else f"uses (scan={fn}, merge={op}, identity={ident}, block total={pre})")
     ctx.count("cumreduction_call_sites", n_s)
     ctx.floor("cumreduction_call_sites", 4)
+    # ---------------- twin agreement with the array-expression engine's copies (see sa/twin.py)
+    n_tw = check_pairs(ctx, pairs_for("C22"))
+    ctx.count("twin_pairs", n_tw)
+    ctx.floor("twin_pairs", 5)
 
 
 VARIANTS = [
